@@ -6,6 +6,7 @@ import MiniconfVerif.Props.C08
 #print axioms MiniconfVerif.C08.push_pop_seq
 #print axioms MiniconfVerif.C08.push_seq_overflow
 #print axioms MiniconfVerif.C08.lsb_bijection
+#print axioms MiniconfVerif.C08.constructors
 #print axioms MiniconfVerif.C08.lsb_preserves
 #print axioms MiniconfVerif.C08.bitsFor_spec
 #print axioms MiniconfVerif.C08.key_width
